@@ -139,13 +139,9 @@ def u_hist(ctx, closed, has_weights):
     def spec(t):
         w = we(t) if has_weights else z3.RealVal(1)
         return z3.If(in_bin(ze(t), ee(b.t), ee(b.t + 1), closed), w, z3.RealVal(0))
-    code_summand = res.meta.get("summand")
-    if code_summand is None:
-        # the result is not a Σ-term of a known primitive: compare through the element directly
-        ctx.check(f"{name}/post:hist_is_weighted_count_by_closed_rule", res.elem(b.t) == sigma.total(spec, patch.n.t))
-        return
-    sigma.congruence(ctx, lambda t: code_summand(b.t, t), spec, patch.n.t,
-                     name="record_counts_in_bin_b_iff_closed_rule")
+    # whatever expression the code built its sums with (bincount of the selected records, bincount with under-/overflow bins
+    # that are dropped, ...): every Σ-term in the result equals Σ spec if its summand does (instances of the congruence schema)
+    sigma.congruent_sums(ctx, to_term(res.elem(b.t)), spec, patch.n.t, name="record_counts_in_bin_b_iff_closed_rule")
     ctx.check(f"{name}/post:hist_is_weighted_count_by_closed_rule", res.elem(b.t) == sigma.total(spec, patch.n.t))
 
 
